@@ -12,7 +12,7 @@ META = {
             "once, never stored in Server or across an await; W3 the lock-order graph over all locks of crate glas is acyclic; W4 the "
             "change is applied to the analysis host before diagnostics are recomputed, the snapshot is taken before the previous "
             "task is replaced, closed documents get empty diagnostics; W5 cancellation is requested before inputs are written. "
-            "One obligation per guard acquisition / call site.",
+            "One obligation per guard acquisition / call site. W7 the document store is written only after cancellation was requested (no reader pairs an old analysis with the new line map); W8 = C12/K4 over the handlers.",
     "explanation": "The two-lock discipline ('never wait for snapshots while holding the document store') is documented in "
                    "comments only. MIR makes guard lifetimes explicit (the unwrap that yields the guard, mem::drop, Drop "
                    "terminators, moves), so the regions in which a guard is live are computed exactly per function and every call "
@@ -36,6 +36,10 @@ def run(F, res, tier):
     lock_rules(F, res)
     other_rules(F, res)
     store_updates_after_cancellation(F, res)
+    from rules import c12 as _c12
+    hs = [f for p_, f in sorted(F.fns.items()) if p_.startswith("glas::handler::") and f.blocks and "{closure" not in p_]
+    res.floor("request handlers in glas::handler", len(hs), 10)
+    _c12.cancelled_not_swallowed(F, res, hs, "W8", lambda f: "handler::%s" % f.name)
 
 
 def lock_rules(F, res, w1="W1", w3="W3"):
